@@ -2,6 +2,8 @@ SPECIFICATION Spec
 CONSTANTS T = 5
  P = 3
  F = 2
+ Guarded = TRUE
+ Kinds = {"exception"}
  Serial = FALSE
  FaultSets <- AllFaultSets
 INVARIANT ScheduleIndependent
